@@ -88,12 +88,38 @@ fn components() -> serde_json::Value {
 /// `run` supervises the real batch in a child process so that a process-level death of the code
 /// under test (abort after a double panic, stack overflow, allocation failure) is still turned
 /// into a replayable VIOLATION instead of a bare crash.
+/// A probe process is given up on when it has burnt more CPU time than any single job needs
+/// (wall time alone says nothing on an overloaded machine), or after 30 minutes.
+fn child_wedged(pid: u32, t0: &std::time::Instant) -> bool {
+    if t0.elapsed().as_secs() > 1800 {
+        return true;
+    }
+    let stat = match std::fs::read_to_string(format!("/proc/{}/stat", pid)) {
+        Ok(s) => s,
+        Err(_) => return t0.elapsed().as_secs() > WEDGE_S + 30,
+    };
+    // fields after the parenthesised command name; utime and stime are fields 14 and 15
+    let rest = stat.rsplit(')').next().unwrap_or("");
+    let f: Vec<&str> = rest.split_whitespace().collect();
+    let ticks: u64 = f.get(11).and_then(|x| x.parse::<u64>().ok()).unwrap_or(0) + f.get(12).and_then(|x| x.parse::<u64>().ok()).unwrap_or(0);
+    let hz = unsafe { libc::sysconf(libc::_SC_CLK_TCK) }.max(1) as u64;
+    ticks / hz > WEDGE_S + 30
+}
+
 fn cmd_run_supervised(id: &str, tier: Tier) -> i32 {
     use std::os::unix::process::ExitStatusExt;
     let exe = std::env::current_exe().unwrap();
     let dir = verif_dir().join("replays");
     let _ = std::fs::create_dir_all(&dir);
-    let journal = dir.join(format!(".journal-{}", std::process::id()));
+    // the journal is rewritten for every job: keep it off the disk (a write held up by the
+    // kernel's dirty-page throttling would stall a worker)
+    let shm = std::path::Path::new("/dev/shm");
+    let jdir = if shm.is_dir() && std::fs::metadata(shm).map(|m| !m.permissions().readonly()).unwrap_or(false) {
+        shm.to_path_buf()
+    } else {
+        dir.clone()
+    };
+    let journal = jdir.join(format!(".simcheck-journal-{}", std::process::id()));
     let status = std::process::Command::new(&exe)
         .args(["run", id, tier.name()])
         .env("SIMCHECK_INNER", "1")
@@ -145,7 +171,7 @@ fn cmd_run_supervised(id: &str, tier: Tier) -> i32 {
                     match c.try_wait() {
                         Ok(Some(s)) => break s.code().is_none(),
                         Ok(None) => {
-                            if t0.elapsed().as_secs() > WEDGE_S + 30 {
+                            if child_wedged(c.id(), &t0) {
                                 let _ = c.kill();
                                 let _ = c.wait();
                                 break true;
@@ -411,7 +437,7 @@ fn cmd_replay(path: &str, quiet: bool) -> i32 {
                     if let Some(s) = c.try_wait()? {
                         return Ok(s);
                     }
-                    if t0.elapsed().as_secs() > WEDGE_S + 30 {
+                    if child_wedged(c.id(), &t0) {
                         c.kill()?;
                         return c.wait();
                     }
